@@ -26,6 +26,9 @@ def _job(prop, modname, jobname, fname, kwargs, tier, seed):
     import warnings
 
     warnings.filterwarnings("ignore")
+    import logging
+
+    logging.disable(logging.CRITICAL)
     from symexec.engine import Prover
 
     t0 = time.time()
